@@ -205,3 +205,84 @@ func phiFeedsCursor(phi *ssa.Phi, cur map[ssa.Value]bool, depth int) bool {
 	}
 	return false
 }
+
+// R-linecol-order (C11): the (line, column) recorded for offset i is that of
+// the character *at* i, i.e. it is determined by the characters before i: the
+// values stored must be defined before this iteration's newline test, not
+// merged after it (otherwise an offset that sits on a '\n' is attributed to
+// the next line, column 0).
+func rtLineCol(a *aggregator, v *rtView) {
+	cfg := v.in.Name
+	f := v.in.SSA.Func("translatePositions")
+	construct := "translatePositions records the position of the character at the offset"
+	if f == nil || len(f.Params) != 2 {
+		a.Und("R-linecol-order", construct, cfg, "", "func translatePositions(buffer, positions) not found")
+		return
+	}
+	buf := f.Params[0]
+	// the newline test: If on  buffer[i] == '\n'
+	var test *ssa.BasicBlock
+	instrsOf(f, func(in ssa.Instruction) {
+		iff, ok := in.(*ssa.If)
+		if !ok {
+			return
+		}
+		bo, ok := iff.Cond.(*ssa.BinOp)
+		if !ok || (bo.Op != token.EQL && bo.Op != token.NEQ) {
+			return
+		}
+		k, ok := bo.Y.(*ssa.Const)
+		if !ok || k.Value == nil || k.Value.String() != "10" {
+			return
+		}
+		if u, ok := bo.X.(*ssa.UnOp); ok {
+			if ia, ok := u.X.(*ssa.IndexAddr); ok && ia.X == ssa.Value(buf) {
+				test = iff.Block()
+			}
+		}
+	})
+	if test == nil {
+		a.Und("R-linecol-order", construct, cfg, v.in.srcPos(f.Pos()), "the newline test `buffer[i] == '\\n'` was not found")
+		return
+	}
+	var bad []string
+	n := 0
+	instrsOf(f, func(in ssa.Instruction) {
+		mu, ok := in.(*ssa.MapUpdate)
+		if !ok {
+			return
+		}
+		for name, val := range memoFieldStores(mu.Value) {
+			n++
+			var leaves func(x ssa.Value, depth int)
+			leaves = func(x ssa.Value, depth int) {
+				if depth > 4 {
+					return
+				}
+				switch y := x.(type) {
+				case *ssa.Const:
+					return
+				case *ssa.BinOp:
+					leaves(y.X, depth+1)
+					leaves(y.Y, depth+1)
+					return
+				}
+				in, ok := x.(ssa.Instruction)
+				if !ok {
+					return
+				}
+				db := in.Block()
+				if db == test {
+					// defined in the test block itself: fine if it is not the tested character
+					return
+				}
+				if !db.Dominates(test) {
+					bad = append(bad, fmt.Sprintf("%s: the %s stored for an offset is %s, defined after this iteration's newline test: an offset that sits on a newline is reported on the following line", v.in.srcPos(mu.Pos()), name, x.Name()))
+				}
+			}
+			leaves(val, 0)
+		}
+	})
+	a.Decide(len(bad) == 0 && n >= 2, "R-linecol-order", construct, cfg, v.in.srcPos(f.Pos()),
+		"the line and column stored for offset i are computed from values defined before the newline test of iteration i", strings.Join(uniq(bad), "; "))
+}
